@@ -213,14 +213,18 @@ class MDReplayer:
         elif u.ser_by_names(back) != want or _multi_device._check_device_configurations(back):  # noqa: SLF001
             self.finding("C19", f"C19:{tag}:roundtrip", rec, row, got=u.ser_by_names(back), want=want,
                          message="annotations differ (or dangle) after serialize/deserialize at IR version 11")
+        for deep in (False, True):
+            self._clone_check(u, rec, row, tag, want, deep)
+
+    def _clone_check(self, u, rec, row, tag, want, deep):
         try:
-            cl = u.model.clone()
+            cl = u.model.clone(deep_copy=deep)
         except Exception:  # noqa: BLE001 - graph not clonable (outer-scope value, forward reference): not a C19 matter
             self.stats["clone_skipped_raises"] += 1
             return
         if u.ser_by_names(cl) != want or _multi_device._check_device_configurations(cl):  # noqa: SLF001
-            self.finding("C19", f"C19:{tag}:clone", rec, row, got=u.ser_by_names(cl), want=want,
-                         message="annotations differ (or dangle) after Model.clone()")
+            self.finding("C19", f"C19:{tag}:clone" + (":deep_copy" if deep else ""), rec, row, got=u.ser_by_names(cl), want=want,
+                         message=f"annotations differ (or dangle) after Model.clone(deep_copy={deep})")
         else:
             src_vals = {id(v) for v in u.values}
             for node in cl.graph:
